@@ -269,6 +269,34 @@ func VerifC09_RefreshStep() {
 	if c09Trusted(r, "k3") {
 		vAssert("new-key-only-after-pending-and-full-authentication", k3Pending && authenticated && !d.revOnly)
 	}
+	// the add hold-down: a pending key is promoted (trusted in memory, or
+	// written as Valid/Missing) only if this accepted refresh still publishes
+	// it and 30 days have passed since it was first seen
+	lastClock := vClockAt(vClockCount() - 1)
+	promoted := func(pk string, tag uint16) bool {
+		if c09Trusted(r, pk) {
+			return true
+		}
+		if ta := d.wroteState[tag]; ta != nil && ta.DNSKey.PublicKey == pk && (ta.State == StateValid || ta.State == StateMissing) {
+			return true
+		}
+		return false
+	}
+	fetchedPlain := func(pk string) bool {
+		for _, rr := range d.fetched {
+			if k := rr.(*dns.DNSKEY); k.PublicKey == pk && k.Flags&DNSKEYFlagRevoke == 0 {
+				return true
+			}
+		}
+		return false
+	}
+	if k3Pending && promoted("k3", c09Tag1) {
+		vAssert("pending-key-promoted-only-if-still-published-after-30-days", authenticated && !d.revOnly && fetchedPlain("k3") && lastClock.Sub(d.state[c09Tag1].FirstSeen) > 720*time.Hour)
+	}
+	k2Pending := !d.stateReadErr && d.state[c09Tag2] != nil && d.state[c09Tag2].State == StateAddPend && len(cfgKeys) == 1
+	if k2Pending && promoted("k2", c09Tag2) {
+		vAssert("pending-key-promoted-only-if-still-published-after-30-days", authenticated && !d.revOnly && fetchedPlain("k2") && lastClock.Sub(d.state[c09Tag2].FirstSeen) > 720*time.Hour)
+	}
 	// a key that is accepted as revoked in this refresh
 	acceptedNow := authenticated && len(d.writes) == 2 && d.wroteTombs != nil && d.wroteTombs[dnskeyMaterialFP(k1)] != nil && !recorded1
 	if acceptedNow {
